@@ -1,6 +1,7 @@
 """C05 — sequential Phragmén selects exactly what its definition (continuous money process) prescribes."""
 from __future__ import annotations
 
+import random
 from fractions import Fraction as F
 
 from .. import core, history, oracle, rulegen, rules, ruleprops
@@ -11,7 +12,8 @@ RULE = ("seeded approval elections x (tie rule, Profile/MultiProfile, initial al
         "independent money-process simulation on the expanded voter list with the implementation's two stated conventions; "
         "non-trivial = at least 2 purchases and the process stopped by the budget (a project left out); plus histories on ONE profile "
         "object (Profile / MultiProfile) that is mutated in place between calls (append, extend, +=, insert, item assignment, deletion, "
-        "ballots edited in place, multiplicities changed): every call is judged by the same predicate on the voters present at that call")
+        "ballots edited in place, multiplicities changed): every call is judged by the same predicate on the voters present at that call; plus several calls "
+        "in a row handed ONE caller-owned BudgetAllocation object as initial allocation (each call is the process started from the allocation the caller built)")
 ASSUMPTIONS = ["approval ballots", "feasible initial allocation", "conventions of the implementation taken as given (projects above the whole budget ignored; unsupported tail)"]
 
 
@@ -66,10 +68,58 @@ def history_cfg(rng, case, multi):
     return cfg
 
 
+def _shared_call(case, built, obj, cfg):
+    c = dict(cfg, init_obj=obj)
+    rulegen.fix_loads(c, built)
+    ans, raw = rules.impl_answer(built, c)
+    c.pop("init_obj")
+    return ruleprops.Item(case, c, built, ans, raw, None)
+
+
+def shared_init_stream(ctx, n):
+    """ONE caller-owned BudgetAllocation object handed to several calls in a row (as the comparison wrappers and every caller that
+    keeps its 'already funded' allocation in a variable do): each call is the money process started from the allocation the
+    caller built, whatever the earlier calls bought"""
+    from pabutools.rules import BudgetAllocation
+
+    r = random.Random(ctx.rng.getrandbits(48))
+    for _ in range(n):
+        if ctx.budget_s is not None and ctx.elapsed() > ctx.budget_s:
+            break
+        case = core.gen_tight_election(r, btypes=("app",)) if r.random() < 0.6 else core.gen_election(r, btypes=("app",), m_lo=2, m_hi=6)
+        init = []
+        for _try in range(4):
+            init = core.gen_init(r, case)
+            if init:
+                break
+        multi = r.random() < 0.4
+        built = rules.Built(case, multi=multi)
+        obj = BudgetAllocation([built.projs[nm] for nm in init])
+        done = []
+        for k in range(r.randint(2, 3)):
+            cfg = rulegen.gen_rule_cfg(r, case, rules=("phragmen",), allow_refuse=False)
+            cfg["multi"] = multi
+            cfg["init"] = list(init)
+            if not cfg["res"] and len(case.projects) > 5:
+                cfg["res"] = True
+            it = _shared_call(case, built, obj, cfg)
+            ctx.evaluations += 1
+            ctx.count("stream", "shared-initial-allocation-object:call-%d" % (k + 1))
+            for v in predicate(it):
+                v["what"] = f"call {k + 1} on one shared initial-allocation object: " + v["what"]
+                v["cfg"] = dict(v["cfg"], shared_init_history=[ruleprops.cfg_json(d) for d in done])
+                v["sig"] = dict(v["sig"], history="shared_init_object")
+                ctx.violations.append(v)
+            if nontrivial(it) and init:
+                ctx.nontrivial.add(case.key() + "shared" + str(k))
+            done.append(it.cfg)
+
+
 def run(ctx):
     ctx.rule = RULE
     items = ruleprops.run_items(ctx, pairs(ctx, ctx.scale(2000, 20000)), predicate, nontrivial)
     history.run_profile_history(ctx, ctx.scale(500, 5000), predicate, history_cfg)
+    shared_init_stream(ctx, ctx.scale(400, 4000))
     ctx.extra["with_initial_loads"] = sum(1 for it in items if it.cfg.get("loads") is not None)
     ctx.extra["with_initial_allocation"] = sum(1 for it in items if it.cfg.get("init"))
 
@@ -78,6 +128,7 @@ def search(ctx, disagreements):
     ctx.rule = RULE
     ruleprops.run_items(ctx, pairs(ctx, 10000), predicate, nontrivial, compare=False)
     history.run_profile_history(ctx, 3000, predicate, history_cfg)
+    shared_init_stream(ctx, 3000)
 
 
 def replay(payload):
@@ -85,6 +136,17 @@ def replay(payload):
         return history.replay_profile_history(payload, predicate)
     case = Case.from_json(payload["case"])
     cfg = ruleprops.cfg_from_json(payload["cfg"])
+    if cfg.get("shared_init_history") is not None:
+        from pabutools.rules import BudgetAllocation
+
+        built = rules.Built(case, multi=cfg.get("multi", False))
+        obj = BudgetAllocation([built.projs[nm] for nm in (cfg.get("init") or [])])
+        for prev in cfg.pop("shared_init_history"):
+            _shared_call(case, built, obj, ruleprops.cfg_from_json(prev))
+        vs = predicate(_shared_call(case, built, obj, cfg))
+        if vs:
+            return False, "still fails: " + vs[0]["what"]
+        return True, "property holds on the replayed history"
     built = rules.Built(case, multi=cfg.get("multi", False))
     rulegen.fix_loads(cfg, built)
     ans, raw = rules.impl_answer(built, cfg)
